@@ -722,12 +722,13 @@ static void run_child(void)
 		thr[t] = th[t];
 	}
 	pthread_barrier_wait(&start_bar);
-	for (t = 1; t <= nthreads; t++) {
-		/* join with deadline: a hung submitter must not hang the harness */
+	{
+		/* join with one common deadline: a hung submitter must not hang the harness */
 		struct timespec ts;
 		clock_gettime(CLOCK_REALTIME, &ts);
 		ts.tv_sec += 6;
-		if (pthread_timedjoin_np(th[t], NULL, &ts) != 0) ST(timed_out_, 1);
+		for (t = 1; t <= nthreads; t++)
+			if (pthread_timedjoin_np(th[t], NULL, &ts) != 0) ST(timed_out_, 1);
 	}
 	for (t = 1; t <= nthreads; t++)
 		for (q = 0; q < nbatch[t]; q++)
